@@ -33,7 +33,7 @@ ANCHORS = [
 GROUP1 = ("de", "pso", "nm", "bayes")
 GROUP2 = ("powell", "bfgs", "lbfgs")
 BOUNDED = ("de", "pso", "bayes")
-IMPORTS = "From SV Require Import C19.B_Common C19.B_DE C19.B_PSO C19.B_NM C19.B_Bayes C19.B_Flow C19.B_Spec."
+IMPORTS = "From SV Require Import C19.B_Common C19.B_DE C19.B_PSO C19.B_NM C19.B_Bayes C19.B_Flow C19.B_Powell C19.B_Spec."
 
 
 # ------------------------------------------------------------------------------------------------ objectives
@@ -284,15 +284,25 @@ def execute(spec, *, flip=False):
                           timeout=20)
         elif solver == "powell":
             searches = aux.setdefault("searches", [])
+            gold = []
+
+            def wg(orig):       # _golden_section_search returns (x_min, f_min, evals + 1), evals = 2 + loop iterations
+                def f(*a, **kw):
+                    r = orig(*a, **kw)
+                    gold.append(r[2] - 3)
+                    return r
+                return f
 
             def w(orig):
                 def f(objective_fn, x, direction, sign, bounds=None):
-                    n0 = len(rec.log)
+                    n0, g0 = len(rec.log), len(gold)
                     x_in = list(x)
                     r = orig(objective_fn, x, direction, sign, bounds)
-                    searches.append({"k": len(rec.log) - n0, "x_in": x_in, "x_out": list(r[0]), "f_out": r[1]})
+                    searches.append({"k": len(rec.log) - n0, "x_in": x_in, "x_out": list(r[0]), "f_out": r[1],
+                                     "deg": len(gold) == g0, "m": gold[-1] if len(gold) > g0 else 0})
                     return r
                 return f
+            patch("solvor.powell", "_golden_section_search", wg)
             patch("solvor.powell", "_line_search", w)
             fn = _mod("solvor.powell").powell
             out = guarded(fn, rec, list(spec["x0"]), minimize=minimize, bounds=spec["bounds"], max_iter=spec["max_iter"],
@@ -455,7 +465,7 @@ def powell_oracles(spec, o):
             j += 1
             x, f_x = s["x_out"], s["f_out"]
         it += 1
-    return [s["k"] for s in searches], conv, moved
+    return [(s["deg"], s["m"]) for s in searches], conv, moved
 
 
 def qn_oracles(spec, o):
@@ -489,8 +499,9 @@ def coq_term(spec, o, early_best=True):
     elif solver == "bayes":
         run = f"bo_run_st {mn} {cnat(spec['n_initial'])} {cnat(spec['max_iter'])} {cb} {interval} {vals}"
     elif solver == "powell":
-        lens, conv, moved = powell_oracles(spec, o)
-        run = (f"powell_run_st {cnat(spec['d'])} {cnat(spec['max_iter'])} {nth_fun(lens)} {its_fun(conv)} {its_fun(moved)} "
+        ls, conv, moved = powell_oracles(spec, o)
+        lsf = "(fun j => nth j " + clist(ls, lambda p: f"({cbool(p[0])}, {cnat(p[1])})") + " (true, 0%nat))"
+        run = (f"powell_run_st {mn} {cnat(spec['d'])} {cnat(spec['max_iter'])} {lsf} {its_fun(conv)} {its_fun(moved)} "
                f"{cb} {interval} {vals}")
     else:
         conv, bt = qn_oracles(spec, o)
@@ -589,7 +600,7 @@ THOROUGH = {"de": 4500, "pso": 4500, "nm": 7500, "bayes": 1200, "powell": 1200, 
 def run_part(ctx: Ctx):
     ctx.notes += [
         "C19-B objectives are integer-valued functions of the float point (plateaus, ties, jumps): comparisons on objective values are exact; rounding error of the point arithmetic is outside the theorems (points are opaque identities)",
-        "C19-B oracles recorded from the run: DE _population_converged bits; on_progress answers; powell: number of objective calls per _line_search (line search abstracted: its result is its last call), conv/moved bits recomputed by the harness with the code's formulas; bfgs/lbfgs: grad_norm<tol bits from recorded gradients, number of backtracking trials from the recorded call interleaving",
+        "C19-B oracles recorded from the run: DE _population_converged bits; on_progress answers; powell: per _line_search the bit alpha_min>=alpha_max and the number of golden-section iterations (bracket loop, golden loop and f_min = last call are modelled), conv/moved bits recomputed by the harness with the code's formulas; bfgs/lbfgs: grad_norm<tol bits from recorded gradients, number of backtracking trials from the recorded call interleaving",
         "C19-B in_bounds relies on lo <= random.uniform(lo,hi) <= hi (assumption about `random`, tested by the oracle on every evaluated point)",
         "C19-B seed reproducibility is a property of random.Random (trusted), tested by running every case twice",
         "C19-B input rejections (outside valid_input, not judged): bayesian_opt(n_initial=0) and particle_swarm(n_particles=0) raise ValueError from min() of an empty range; nelder_mead with len(x0)=0 not modelled",
